@@ -113,7 +113,12 @@ def gen_cases(pid, rng, tier, kinds):
         if pid in ("C16", "C05", "C06", "C01"):
             cases += [gen.gen_window_case(rng, kind, 8700 + i) for i in range(50 if tier == "quick" else 500)]
         if pid in ("C03", "C04", "C12", "C05", "C10", "C16", "C01"):
-            cases += [gen.gen_excess_case(rng, kind, 8900 + i) for i in range(50 if tier == "quick" else 500)]
+            ex = [gen.gen_excess_case(rng, kind, 8900 + i) for i in range(50 if tier == "quick" else 500)]
+            if pid == "C12" and kind == "sync":
+                # C12 is stated for the concurrent cache with maintenance after every op (the oracle's recency
+                # order is the history's only then: reads and writes travel through separate queues)
+                ex = [sync_every_op(c) for c in ex]
+            cases += ex
         extra = 4 if tier == "quick" else 30
         if pid in ("C03", "C05", "C06", "C08", "C10", "C11", "C01", "C16"):
             nme = extra // 2 if pid not in ("C05", "C06") else (extra * 8 if kind == "unsync" else extra * 2)
